@@ -6,7 +6,7 @@ import collections
 
 from . import diagnose, gen, oracle
 from .facts import Facts
-from .world import abstract_trace, run_scenario, trace_digest
+from .world import abstract_trace, completion_watch, run_scenario, trace_digest
 
 
 def _raised(w, F):
@@ -105,6 +105,8 @@ BUS_PROPS = {
                 profiles=[('clean', 1), ('multi', 4), ('nested', 2), ('parallel', 2), ('stalls', 2), ('gap', 2), ('multi_fwd', 2)]),
     'C07': dict(oracle=lambda F, w: oracle.c07(F),
                 profiles=[('topo', 5), ('topo_traffic', 3), ('multi_fwd', 2)]),
+    'C08': dict(oracle=lambda F, w: oracle.c08(F), watch=completion_watch,
+                profiles=[('topo', 4), ('topo_traffic', 2), ('multi_fwd', 3), ('nested', 2), ('redispatch', 2), ('clean', 1), ('errors', 1)]),
     'C09': dict(oracle=lambda F, w: oracle.c09(F),
                 profiles=[('lineage', 4), ('redispatch', 2), ('parallel', 2), ('multi_fwd', 2), ('clean', 1)]),
     'C10': dict(oracle=lambda F, w: oracle.c10(F),
@@ -113,8 +115,12 @@ BUS_PROPS = {
                 profiles=[('errors', 5), ('single', 1)]),
     'C13': dict(oracle=lambda F, w: oracle.c13(F) + [v for v in oracle.c01(F) if v['clause'] != 'C01.hang'] + oracle.hang_violations(F, 'C13'),
                 profiles=[('small_history_flat', 3), ('small_history', 3)]),
+    'C14': dict(oracle=lambda F, w: oracle.c14(F),
+                profiles=[('flood_caller', 3), ('flood_handler', 4), ('backlog', 1), ('small_history', 1)]),
     'C15': dict(oracle=lambda F, w: oracle.c15(F),
                 profiles=[('idle_race', 4), ('errors', 1), ('timeouts', 1), ('multi_fwd', 2)]),
+    'C16': dict(oracle=lambda F, w: oracle.c16(F),
+                profiles=[('stop', 3), ('stop_enum', 3)]),
 }
 
 
